@@ -49,6 +49,7 @@ def scanDeletedGen (seed idx size : Nat) : Case :=
   let spec := joinWith sep (expected.map showDump)
   let nDel : Nat := (expected.map fun r => (r.map fun d => (d.tables.map (·.rows.length)).sum).sum).sum
   let nLive : Nat := ((combos.map fun o => Spec.expectedDump specVal c o).map fun r => (r.map fun d => (d.tables.map (·.rows.length)).sum).sum).sum
+  let c01class := inTPL c || inA02 c combos false || inA02 c combos true || inSEG c || inTBLSPC c
   let zeroColDel := c.content.any fun (_, d) => d.cls.live.any fun r =>
     r.filenode != 0 && (Spec.userAttrs d.att r.oid).isEmpty &&
     match d.heaps.lookup r.filenode with
@@ -58,9 +59,11 @@ def scanDeletedGen (seed idx size : Nat) : Case :=
              (if nLive == 0 then "live=0" else "live>0")] ++
             (if dumpHypOK c combos then ["hyp:dump=ok"] else ["hyp:dump=no"]) ++
             (if zeroColDel then ["zerocol-deleted"] else []) ++
-            (if mismatch then ["hint=wrong"] else []) ++ (if nDel > 0 then ["nt"] else []),
+            (if mismatch then ["hint=wrong"] else []) ++ (if c01class then ["c01-finding-class"] else []) ++ (if nDel > 0 then ["nt"] else []),
     model := scanModel files combos,
-    spec := if mismatch then "-" else spec,
+    -- clusters in the class of an open C01/C12 finding (template databases by name, compressed / TOASTed values, segment
+    -- files, tablespaces) are the business of those properties: here the spec is silent and model = code is what is checked
+    spec := if mismatch || c01class then "-" else spec,
     args := joinWith ";" (combos.map showOpts) :: files.map showFile }
 
 def scandeleted : Family :=
